@@ -50,6 +50,11 @@ CONFIGS = {
         peers=[{"name": "peer1.verif.example"}],
         apps=[{"tag": "c3", "id": 3, "auth": False, "acct": True, "peers": ["peer1.verif.example"]}],
         node={}),
+    "default_peer_and_additional_realm": dict(
+        peers=[{"name": "peer1.verif.example", "default": True}, {"name": "peer2.verif.example"}],
+        apps=[{"tag": "a4", "id": 4, "auth": True, "peers": ["peer1.verif.example"], "realms": ["extra.example"]},
+              {"tag": "d16", "id": 16777238, "auth": True, "peers": []}],
+        node={"cer_timeout": 5, "cea_timeout": 5}),
     "three_peers_app_on_other_peer": dict(
         peers=[{"name": "peer1.verif.example"}, {"name": "peer2.verif.example"}, {"name": "peer3.verif.example"}],
         apps=[{"tag": "a4", "id": 4, "auth": True, "peers": ["peer2.verif.example"]}],
